@@ -64,7 +64,7 @@ func TimeFromProto(proto *dtpb.Time) Time {
 	case dtpb.Time_SECOND:
 		l = secondLayout
 	}
-	return Time{t, l}
+	return Time{truncateToLayout(t, l), l}
 }
 
 // ToProtoTime returns a proto Time based on a system Time.
